@@ -18,7 +18,7 @@ COMM_MONITORS = {
     'foreign_group', 'slot_mismatch', 'root_not_member',
     'new_group_mismatch', 'stall', 'incomplete_slot',
     'incomplete_new_group', 'timeout', 'max_actions', 'apply_error',
-    'callback_error',
+    'callback_error', 'non_dense_buffer',
 }
 
 
